@@ -18,7 +18,7 @@ theorem breaks and the check goes looking for a failing input.  Which model bran
  * `units.setter`   shape != (len(column_names),)         → `setUnits`: `us.length ≠ f.cols.length` ⇒ ValueError
  * `create_data_frame`  len(col_names) != len(col_dict)   → `createNamesTypes`: DuplicateColumnName
  * the `<reraise>` entries are the roll-back handlers of `append_column` / `append_rows` / `write_column`
-   (fix: commits e4fbac6, ad11a3a, 2f1693f): the model returns the unchanged frame with the error.
+   (fix: commits e4fbac6, ad11a3a, 2f1693f) and of `create_data_frame` (51bc882): the model returns the unchanged frame with the error.
 The refusal theorems of `Props/C16.lean` (`C16_refuses_*`) are stated over those model branches.
 -/
 namespace Nix.Frame.Shape
@@ -41,7 +41,7 @@ def guards : List (String × List (String × String)) := [
   ("column_names", []),
   ("dtype", []),
   ("df_shape", []),
-  ("create_data_frame", [("not isinstance(copy_from, DataFrame)", "TypeError"), ("name in data_frames", "DuplicateName"), ("True", "ValueError"), ("len(col_names) != len(col_dict)", "DuplicateColumnName"), ("len(col_dtype.fields.values()) != len(col_dict)", "DuplicateColumnName"), ("True", "ValueError")]),
+  ("create_data_frame", [("not isinstance(copy_from, DataFrame)", "TypeError"), ("name in data_frames", "DuplicateName"), ("True", "ValueError"), ("len(col_names) != len(col_dict)", "DuplicateColumnName"), ("len(col_dtype.fields.values()) != len(col_dict)", "DuplicateColumnName"), ("True", "ValueError"), ("True", "<reraise>")]),
   ("create_new", [])
 ]
 
